@@ -127,7 +127,7 @@ def rnd_tag(p0, p1, p2, e01, e02, e12, s0, s1, s2, q0, q1, q2, i0, i1, i2):
 def rnd(p0: int, p1: int, p2: int, e01: bool, e02: bool, e12: bool, s0: int, s1: int, s2: int, q0: int, q1: int, q2: int,
         i0: bool, i1: bool, i2: bool) -> bool:
     '''
-    pre: 0 <= p2 <= 4 and p0 == pinned('p0') and p1 == pinned('p1') and (pinned('p2') is None or p2 == pinned('p2'))
+    pre: 0 <= p1 <= 4 and 0 <= p2 <= 4 and p0 == pinned('p0') and (pinned('p1') is None or p1 == pinned('p1')) and (pinned('p2') is None or p2 == pinned('p2'))
     pre: 0 <= s0 <= 2 and 0 <= s1 <= 2 and 0 <= s2 <= 2
     pre: 0 <= q0 <= 2 and 0 <= q1 <= 2 and 0 <= q2 <= 2
     pre: quick_statuses(s0, s1, s2) and relevant(q0, q1, q2, i0, i1, i2) and valid(e01, e02, e12, s0, s1, s2)
@@ -151,7 +151,9 @@ def relevant(q0, q1, q2, i0, i1, i2):
         return False
     if a == 3 and not (i0 and i1 and i2):
         return False
-    if PIN.get('quick') and not i2:
+    if PIN.get('empty_pool'):
+        return not (i0 or i1 or i2)   # the ready set handed to run() is empty: the algorithm re-seeds it from the plan's roots
+    if PIN.get('quick') and not PIN.get('free_i2') and not i2:
         return False                 # quick tier: third task always in the ready set (thorough: symbolic)
     if PIN.get('quick') and a == 2 and not (i0 and i1):
         return False                 # quick tier, plan-following: whole plan in the ready set (the planned machines are the symbolic part)
@@ -159,6 +161,8 @@ def relevant(q0, q1, q2, i0, i1, i2):
 
 
 def quick_statuses(s0, s1, s2):
+    if PIN.get('empty_pool'):
+        return True
     """quick tier, plan-following algorithms: only the first task may already be finished (thorough: all valid status vectors)"""
     if PIN.get('quick') and PIN['alg'] in (2, 3):
         return s1 == 0 and s2 == 0 and s0 != 1
@@ -187,14 +191,21 @@ def shards(tier, prop):
     algs = {'C17': [2], 'C09': [0], 'C01': [0, 1, 2, 3], 'C03': [0, 1, 2, 3], 'C04': [0, 1, 2, 3], 'C05': [3]}[prop]
     out = []
     if tier == 'quick':
-        vecs = QUICK_VECTORS if len(algs) <= 2 else QUICK_VECTORS[:5]
+        vecs = QUICK_VECTORS if len(algs) <= 2 else QUICK_VECTORS[:3]
         for a in algs:
             for (p0, p1, p2) in vecs:
                 out.append({'fn': 'rnd', 'pin': {'alg': a, 'p0': p0, 'p1': p1, 'p2': p2, 'props': [prop], 'quick': True}, 'cond_timeout': 200, 'path_timeout': 30})
+            if a in (0, 1, 2):
+                out.append({'fn': 'rnd', 'pin': {'alg': a, 'p0': 0, 'p1': 0, 'p2': 2, 'props': [prop], 'empty_pool': True}, 'cond_timeout': 200, 'path_timeout': 30})
     else:
+        # thorough: every pool vector (first machine pinned per shard, the other two symbolic), third task's ready-set
+        # membership symbolic; the status restriction of the quick tier is kept (see quick_statuses)
+        p0s = range(5) if prop in ('C01', 'C17', 'C09', 'C05') else (0, 3)
         for a in algs:
-            for p0 in range(5):
-                for p1 in range(5):
-                    out.append({'fn': 'rnd', 'pin': {'alg': a, 'p0': p0, 'p1': p1, 'props': [prop]}, 'cond_timeout': 1500, 'path_timeout': 30})
+            for p0 in p0s:
+                out.append({'fn': 'rnd', 'pin': {'alg': a, 'p0': p0, 'props': [prop], 'quick': True, 'free_i2': True, 'free_pools': True},
+                            'cond_timeout': 2400, 'path_timeout': 30})
+            if a in (0, 1, 2):
+                out.append({'fn': 'rnd', 'pin': {'alg': a, 'p0': 0, 'p1': 0, 'p2': 2, 'props': [prop], 'empty_pool': True}, 'cond_timeout': 600, 'path_timeout': 30})
     out.append({'fn': 'rnd', 'pin': {'alg': algs[0], 'p0': 0, 'p1': 0, 'p2': 0, 'props': [prop], 'quick': True}, 'cond_timeout': 40, 'twin': True})
     return out
